@@ -69,6 +69,12 @@ func fatSpec(rng *PRNG) []byte {
 	for _, n := range names[:4] {
 		hdrs["X-"+strings.Title(n)] = map[string]any{"schema": map[string]any{"type": "string"}, "required": n < "c"}
 	}
+	// component header keys are Go type names in goag: identifier-shaped (a key such as "X-Alpha"
+	// is rejected: 'type X-Alpha string' is not valid Go)
+	compHdrs := map[string]any{}
+	for _, n := range names[:4] {
+		compHdrs["H"+strings.Title(n)] = map[string]any{"schema": map[string]any{"type": "string"}, "required": n < "c"}
+	}
 	compResponses := map[string]any{}
 	for _, n := range names[:4] {
 		compResponses["R"+strings.Title(n)] = map[string]any{"description": n, "headers": hdrs, "content": map[string]any{"application/json": map[string]any{"schema": map[string]any{"$ref": "#/components/schemas/" + objNames[1]}}}}
@@ -120,7 +126,7 @@ func fatSpec(rng *PRNG) []byte {
 			"a": map[string]any{"default": "host"}, "b": map[string]any{"default": "8443"}, "c": map[string]any{"default": "api"}, "d": map[string]any{"default": "v{c}"}}}},
 		"security":   []any{map[string]any{"jwt": []any{}, "keyA": []any{}}, map[string]any{"keyB": []any{}, "keyQ": []any{}}},
 		"paths":      paths,
-		"components": map[string]any{"schemas": schemas, "responses": compResponses, "parameters": compParams, "headers": hdrs, "securitySchemes": secSchemes},
+		"components": map[string]any{"schemas": schemas, "responses": compResponses, "parameters": compParams, "headers": compHdrs, "securitySchemes": secSchemes},
 	}
 	bs, _ := json.Marshal(doc)
 	return bs
